@@ -42,6 +42,17 @@ def route_grammars(R):
                 R.Rule('Space', R.Seq(R.Str('{-'), R.Regex('[A-Z]+'), R.Str('-}')), ignored=True)] + plain()
     G.append(('ignore-two-first', ignore_two_first, {}))
 
+    def ignore_lookahead():
+        # literals inside lookaheads, options and repetitions skip like any other literal
+        e = R.Seq(R.new('Expect', R.Right(R.Str('('), R.Str(')'))),
+                  R.new('ExpectNot', R.Seq(R.Str('end'), R.Str('if'))),
+                  R.Opt(R.Right(R.Str('['), R.Str(']'))),
+                  R.List(R.Seq(R.Str(','), R.Regex('[0-9]+'))),
+                  R.Ref('X'))
+        return [R.Rule('start', e), R.Rule('X', R.Regex('b+')),
+                R.Rule('Space', R.Regex(r'\s+'), ignored=True)]
+    G.append(('ignore-lookahead', ignore_lookahead, {}))
+
     def class_start():
         return [R.Class('Start', [R.Rule('a', R.Str('x')), R.Rule('b', R.Ref('X'))]),
                 R.Rule('X', R.Regex('b+')),
@@ -77,6 +88,7 @@ def route_grammars(R):
                 R.Rule('PYC', T(R.Py('1 + 1'))),
                 R.Rule('BYT', T(R.Byte(0x41))),
                 R.Rule('NEST', T(T(R.Str('n')))),
+                R.Rule('EMPTY', R.Choice(R.Seq(R.Ref('X'), R.Str('x')), R.Seq(R.Call(R.Ref('X'), []), R.Str('z')))),
                 R.Rule('X', R.Regex('b+'))]
     G.append(('templates', templates, {}))
 
@@ -965,6 +977,34 @@ def who_may_call_ignored(bad, stats):
                             bad('IGN-who-may-call', f'{rel}:{fname} builds the name of the ignore rule')
 
 
+def _subst(t, sub):
+    if t in sub:
+        return sub[t]
+    if isinstance(t, tuple):
+        return tuple(_subst(x, sub) for x in t)
+    return t
+
+
+def inline_helpers(term, funcs, depth=0):
+    """see through module-level helper functions: UNPACK(helper(args), i) -> the i-th element the
+    helper returns (single return path, tuple display), parameters substituted; so that moving code
+    into a shared runtime helper does not change what the rule sees"""
+    if depth > 3 or not isinstance(term, tuple):
+        return term
+    if term[:1] == ('UNPACK',) and isinstance(term[1], tuple) and term[1][:1] == ('CALL',) \
+            and isinstance(term[1][1], tuple) and term[1][1][:1] == ('VAR',) and term[1][1][1] in funcs \
+            and term[1][1][1] not in ('_get_line_and_column', '_extract_excerpt', '_map_index_to_line_and_column'):
+        h = funcs[term[1][1][1]]
+        ps = [p for p in P.Enumerator().function(h) if p.end and p.end[0] == 'return']
+        params = positional_params(h)
+        args = term[1][2:]
+        if len(ps) == 1 and len(params) == len(args) and isinstance(ps[0].end[1], tuple) \
+                and ps[0].end[1][:1] == ('TUPLE',) and isinstance(term[2], int) and term[2] + 1 < len(ps[0].end[1]):
+            sub = {('PARAM', p): a for p, a in zip(params, args)}
+            return inline_helpers(_subst(ps[0].end[1][1 + term[2]], sub), funcs, depth + 1)
+    return tuple(inline_helpers(x, funcs, depth) if isinstance(x, tuple) else x for x in term)
+
+
 def error_functions(mods, bad, stats):
     """C09 c: generated _raise_error<N>: (line, col) are None exactly under len(text) <= pos, otherwise
     come from _get_line_and_column(text, pos); every path raises ParseError(message, pos, line, col)."""
@@ -993,6 +1033,17 @@ def error_functions(mods, bad, stats):
                                      f'ParseError(message, pos, line, col)')
                     continue
                 msg, index, line, col = exc[2:]
+                allf = dict(functions_top(m.tree))
+                if m.sub:
+                    imported = {a.asname or a.name for n in m.tree.body if isinstance(n, ast.ImportFrom)
+                                for a in n.names}
+                    anc = getattr(m, 'parent', None)
+                    while anc is not None:
+                        for k, v in functions_top(anc.tree).items():
+                            if k in imported:
+                                allf.setdefault(k, v)
+                        anc = getattr(anc, 'parent', None)
+                line, col, index = (inline_helpers(x, allf) for x in (line, col, index))
                 if index != Pp:
                     bad('ERR-position', f'{m.label}: {fname} reports index {P.tfmt(index)}, expected the failure '
                                         f'position it was called with')
@@ -1013,6 +1064,7 @@ def error_functions(mods, bad, stats):
                                             f'expected those of _get_line_and_column(text, pos)')
                     ex = [e for e in p.events('assign') if isinstance(e[3], tuple)
                           and e[3][:2] == ('CALL', ('VAR', '_extract_excerpt'))]
+                    ex = [(e[0], e[1], e[2], inline_helpers(e[3], allf)) for e in ex]
                     if ex and ex[0][3][2:] != (T, Pp, ('UNPACK', lc, 1)):
                         bad('ERR-position', f'{m.label}: {fname}: excerpt built from '
                                             f'{P.tfmt(ex[0][3])}, expected _extract_excerpt(text, pos, col)')
@@ -1180,6 +1232,7 @@ def run(rep, pid, rules, label_filter=None):
     adaptor_rules(bad, stats)
     subgrammar_imports(bad, stats)
     inherited_start(bad, stats)
+    parameterless_call_key(bad, stats)
     route_failures(pid, rep)
     rep.count('route modules emitted', nmods)
     for k, v in stats.items():
@@ -1337,3 +1390,30 @@ def inherited_start(bad, stats):
         if want is not None and got != want:
             bad('START-inherited', f'{m.label}: parse() of the sub-grammar starts {got}; the inherited start is '
                                    f'{want} (a base grammar\'s start may be a rule or a class)')
+
+
+def parameterless_call_key(bad, stats):
+    """C07: `R()` on a parameterless rule is the same reference as `R`: it must request the rule
+    itself, so that both share one memo entry (a _ParseFunction wrapper is a different key)"""
+    R, mods = emitted_modules()
+    for m in mods:
+        if not isinstance(m, modroute.Emitted) or getattr(m, 'route', '') not in ('templates', 'templates-ignore'):
+            continue
+        fn = functions_top(m.tree).get(impl('EMPTY'))
+        if fn is None:
+            raise AnalysisError(f'{m.label}: route rule EMPTY missing')
+        env = local_assignments(fn)
+        stats['empty_calls'] = stats.get('empty_calls', 0) + 1
+        callees = []
+        for callee, pos, y in requests_in(fn):
+            s = strip_ctx(callee)
+            if isinstance(callee, ast.Name) and callee.id in env:
+                for v in env[callee.id]:
+                    if isinstance(v, ast.Call) and isinstance(v.func, ast.Name) and v.func.id == '_ParseFunction':
+                        callees.append('wrapped:' + ast.unparse(v.args[0]))
+            elif s:
+                callees.append(s[0])
+        if any(c.startswith('wrapped:') and c.endswith(impl('X')) for c in callees):
+            bad('C07-call-key', f'{m.label}: `X()` on the parameterless rule X is requested through a _ParseFunction '
+                                f'wrapper: it is memoised under a different key than the plain reference `X`, so '
+                                f'the rule body runs twice at one position')
